@@ -69,7 +69,7 @@ Qed.
 
 (* all pairs of a method signature, and the closure computed with the same DFS as the tool's (proved correct in Proofs.v) *)
 Definition rust_pairs (fuel : nat) (ds : defs) (m : msig) : list (nat * nat) :=
-  constraints (m_ops m) ++
+  constraints (spec_ops m) ++
   flat_map (fun t => match ty_use t with
                      | Some (tid, args) => subst_pairs args (wf_pairs fuel ds tid)
                      | None => []
